@@ -92,6 +92,27 @@ def gen_train(rng, method, nd, via):
             'cmp': 'exact' if exact else 'tol'}
 
 
+SCIPY_K = {'scipy_slinear': 1, 'scipy_cubic': 3, 'scipy_quintic': 5}
+
+
+def gen_train_scipy(rng, method, nd, via):
+    """Value gradients of the scipy spline wrappers on grids whose sizes (2..7) force DIFFERENT reduced
+    spline orders in different dimensions (order = min(k, n_points - 1) per dimension)."""
+    k = SCIPY_K[method]
+    while True:
+        sizes = [rng.randrange(2, 8) for _ in range(nd)]
+        orders = [min(k, n - 1) for n in sizes]
+        if len(set(orders)) > 1 or rng.random() < 0.25:
+            break
+    grids = [g15.gen_grid(rng, n, rng.choice(['uniform', 'pow2', 'any']), rng.choice(g15.SIGNS)) for n in sizes]
+    v, w = rand_table(rng, grids), rand_table(rng, grids)
+    a = rng.choice([Fr(2), Fr(-1), Fr(1, 2), Fr(-4), Fr(3)])
+    pt = [g15.gen_coord(rng, g, rng.choice(['cell', 'cell', 'cell', 'node', 'lo', 'hi'])) for g in grids]
+    return {'kind': 'train', 'method': method, 'via': via, 'grids': [[pj(x) for x in g] for g in grids],
+            'v': g15.to_json(v), 'w': g15.to_json(w), 'a': pj(a), 'pt': [pj(x) for x in pt], 'cmp': 'tol',
+            'orders': orders}
+
+
 def gen_spline(rng, method, via):
     n = rng.randrange(max(4, KMIN.get(method, 4)), 9)
     c = {'kind': 'spline', 'method': method, 'via': via, 'a': pj(rng.choice([Fr(2), Fr(-1), Fr(1, 2), Fr(3)])),
@@ -124,7 +145,8 @@ class C16(Spec):
     rule = ('grids as in C15 (six sign classes, three spacing modes, dimension 1-3); d/dx: points strictly inside '
             'cells (odd eighths), all five methods, general and fixed variants, compared with a 5-point difference '
             'of the returned values, akima also with the smoothing option delta_x > 0 on 2-D/3-D tables, also as histories (same object queried outside the table first, then one call per point); value gradients: training_gradients / MetaModelStructuredComp(training_data_'
-            'gradients) for slinear, lagrange2, lagrange3, cubic with tables v, w, a*v+w; evaluate_spline and '
+            'gradients) for slinear, lagrange2, lagrange3, cubic and the scipy_slinear/cubic/quintic wrappers (2-D/3-D grids with 2-7 '
+            'points per dimension, so that the reduced spline orders differ between dimensions) with tables v, w, a*v+w; evaluate_spline and '
             'SplineComp (2-3 splines with different control points on one component) for slinear, lagrange2, lagrange3, '
             'cubic, akima, bsplines; the public gradient() API in call sequences on one object (interpolate then gradient, '
             'fresh gradient, gradient at a point within 4e-6 relative of the cached one, in-place mutation of the query '
@@ -155,6 +177,9 @@ class C16(Spec):
             method = LINEAR[k % len(LINEAR)]
             nd = rng.choice([1, 1, 2, 2, 3])
             cases.append(gen_train(rng, method, nd, 'comp' if rng.random() < 0.1 else 'interp'))
+        for k in range(120 if tier == 'quick' else 1200):
+            method = ['scipy_cubic', 'scipy_quintic', 'scipy_slinear', 'scipy_cubic', 'scipy_quintic'][k % 5]
+            cases.append(gen_train_scipy(rng, method, rng.choice([2, 2, 3]), 'comp' if rng.random() < 0.15 else 'interp'))
         sm = ['slinear', 'lagrange2', 'lagrange3', 'cubic', 'akima', 'bsplines', 'bsplines']
         for k in range(n3):
             cases.append(gen_spline(rng, sm[k % len(sm)], 'comp' if rng.random() < 0.3 else 'interp'))
